@@ -519,8 +519,8 @@ class Check(Property):
                 ref._build_cache()
                 for n in c["names"][:6]:
                     try:
-                        got = sorted(str(x) for x in u.get_compatible_units(n))
-                        want = sorted(str(x) for x in ref.get_compatible_units(n))
+                        got = sorted(str(x) for x in u.get_compatible_units(n, "root"))        # "root": no default-system filter
+                        want = sorted(str(x) for x in ref.get_compatible_units(n, "root"))
                     except Exception as exc:  # noqa: BLE001
                         v.append(f"C10 file {c['file']} [{c['variant']}] compatible units of {n}: raised {type(exc).__name__}: {exc}")
                         continue
